@@ -41,6 +41,28 @@ def _alarm(signum, frame):
     raise Abort()
 
 
+class capped_memory:
+    """caps the address space for the duration of a library call: a structure sized by a count or length field read from the
+    input fails with MemoryError instead of taking the machine down"""
+
+    def __enter__(self):
+        import resource
+        self.res = resource
+        self.soft, self.hard = resource.getrlimit(resource.RLIMIT_AS)
+        try:
+            with open('/proc/self/statm') as f:
+                cur = int(f.read().split()[0]) * resource.getpagesize()
+        except Exception:
+            cur = 1 << 31
+        cap = cur + (3 << 30)
+        resource.setrlimit(resource.RLIMIT_AS, (cap if self.hard == resource.RLIM_INFINITY or cap < self.hard else self.hard, self.hard))
+        return self
+
+    def __exit__(self, *a):
+        self.res.setrlimit(self.res.RLIMIT_AS, (self.soft, self.hard))
+        return False
+
+
 def measure(fn, budget, holder=None):
     """-> (work, aborted, outcome); the call's result is left in holder[0]"""
     import signal
@@ -63,7 +85,8 @@ def measure(fn, budget, holder=None):
     signal.alarm(60)
     sys.settrace(tracer)
     try:
-        r = fn()
+        with capped_memory():
+            r = fn()
         if holder is not None:
             holder.append(r)
     except Abort:
@@ -80,26 +103,17 @@ def measure(fn, budget, holder=None):
 
 
 def peak_kib(fn):
-    """peak traced allocation of one call, in KiB; the address space is capped for the duration so that a table of 2^32 entries
-    fails (and is reported as a huge peak) instead of taking the machine down"""
-    import resource
+    """peak traced allocation of one call, in KiB (a MemoryError under the cap, or a minute without an answer, counts as huge)"""
     import signal
     import tracemalloc
-    soft, hard = resource.getrlimit(resource.RLIMIT_AS)
-    try:
-        with open('/proc/self/statm') as f:
-            cur = int(f.read().split()[0]) * resource.getpagesize()
-    except Exception:
-        cur = 1 << 31
-    cap = cur + (3 << 30)
     signal.signal(signal.SIGALRM, _alarm)
     signal.alarm(60)
     peak = 0
     try:
-        resource.setrlimit(resource.RLIMIT_AS, (cap if hard == resource.RLIM_INFINITY or cap < hard else hard, hard))
         tracemalloc.start()
         try:
-            fn()
+            with capped_memory():
+                fn()
         except MemoryError:
             peak = 1 << 40
         except (Abort, Exception):
@@ -110,7 +124,6 @@ def peak_kib(fn):
     finally:
         tracemalloc.stop()
         signal.alarm(0)
-        resource.setrlimit(resource.RLIMIT_AS, (soft, hard))
     return min((peak + 1023) // 1024, 1 << 30)
 
 
@@ -327,6 +340,28 @@ def generate(tier, seed, ctx):
         from pytoniq_core.boc.hashmap.parse import parse_hashmap_aug
         rec('dict_parse_aug_shared_forks_to_pruned', L + 1, 2 * L, 0,
             lambda: parse_hashmap_aug(c.begin_parse(), 256, lambda sl: None, lambda sl: None), tags=['dict_shared_forks_pruned'])
+    # labels LONGER than the remaining key length (n:(#<= m) violated): the remaining length goes negative and its magnitude can
+    # double with every level, so a chain of L small cells announces labels of 2^L bits.  Given as a bag of cells (bytes in).
+    def overshoot_chain(L, m0=2):
+        ms, m = [], m0
+        for _ in range(L):
+            k = abs(m).bit_length()
+            n = (1 << k) - 1
+            ms.append((k, n))
+            m = m - n - 1
+        c = None
+        for k, n in reversed(ms):
+            b = Builder().store_bits('111')
+            if k:
+                b.store_uint(n, k)
+            c = b.end_cell() if c is None else b.store_ref(c).store_ref(c).end_cell()
+        return c
+    for L in ((4, 12, 20, 28, 36) if q else (4, 8, 12, 16, 20, 24, 28, 32, 36, 48)):
+        data = overshoot_chain(L).to_boc()
+        rec('dict_parse_labels_longer_than_the_key', 0, 0, len(data), lambda: HashMap.parse(Cell.one_from_boc(data).begin_parse(), 2))
+        from pytoniq_core.boc.hashmap.parse import parse_hashmap_aug as _pa
+        rec('dict_parse_aug_labels_longer_than_the_key', 0, 0, len(data),
+            lambda: _pa(Cell.one_from_boc(data).begin_parse(), 2, lambda sl: None, lambda sl: None))
     # dictionary labels with maximal length fields on short cells
     for bits in ('10' + '1' * 10 + '0' * 5, '11' + '1' + '1' * 10, '0' + '1' * 300, '10' + '1' * 9):
         c = Builder().store_bits(bits).end_cell()
